@@ -37,6 +37,9 @@ MANIFEST = {
 }
 
 
+ORIG = {}
+
+
 def mk_state(h, drop='none'):
     cls = h.repo.find(M)
     B = h.int('bucket', 1)
@@ -49,6 +52,7 @@ def mk_state(h, drop='none'):
         d = h.int('drop_at', 2)
     a = Obj(cls, {'index': idx, 'array': arr, 'bucket_size': B, 'shape': (B,), 'drop_at': d}, name='dna')
     h.assume(h.spec('wf', a))
+    ORIG[id(a)] = (a, d, (B,))
     return a
 
 
@@ -60,6 +64,17 @@ def snap(h, a):
 
 def post(h, a, want, name):
     h.prove(h.spec('wf', a), f'{name}.preserves-wf')
+    orig = ORIG.get(id(a))
+    if orig is not None and orig[0] is a:
+        orig = orig[1:]
+        # the drop-oldest limit and the row shape are part of the abstract state (the list model is truncated to that limit):
+        # no operation changes them
+        d0, shape0 = orig
+        d1 = a.f.get('drop_at')
+        same_d = (d1 is None and d0 is None) or (d0 is not None and d1 is not None and ops.equal(d1, d0) is True)
+        sh = a.f.get('shape')
+        same_s = isinstance(sh, tuple) and len(sh) == len(shape0) and all(ops.equal(x, y) is True for x, y in zip(sh, shape0))
+        h.prove(same_d and same_s, f'{name}.keeps-the-drop-oldest-limit-and-the-row-shape')
     h.prove(ops.equal(h.spec('view', a), want), f'{name}.view-equals-list-model')
 
 
